@@ -89,9 +89,33 @@ def compiled_function_calls(p, f):
     fn_names = {nm for nm, (a, i) in bound.items() if i == 0}
     code_names = {nm for nm, (a, i) in bound.items() if i == 1}
     calls = [n for n in walk_no_nested(f.node) if isinstance(n, ast.Call) and isinstance(n.func, ast.Name) and n.func.id in fn_names]
+    # the compiled function may be handed to a helper of the same module that calls it
+    for n in walk_no_nested(f.node):
+        if isinstance(n, ast.Call) and any(isinstance(a, ast.Name) and a.id in fn_names for a in n.args):
+            r = resolve_callee(p, n, f.module)
+            if r and r[0] == "func" and r[1].module is f.module:
+                h = r[1]
+                idx = next(i for i, a in enumerate(n.args) if isinstance(a, ast.Name) and a.id in fn_names)
+                hp = h.params[idx] if idx < len(h.params) else None
+                inner_calls = [c for c in walk_no_nested(h.node) if isinstance(c, ast.Call) and isinstance(c.func, ast.Name) and c.func.id == hp]
+                if inner_calls:
+                    n._helper = (h, inner_calls, hp)
+                    calls.append(n)
     if not calls or not code_names:
         raise AnalysisError(f"unrecognised idiom in {f.qualname}: compiled function / code are not obtained by unpacking the cache call")
     return calls, fn_names, code_names, bound
+
+
+def exec_sites(call, f):
+    """(function, call node) pairs where the compiled function is really invoked for an api-wrapper call site"""
+    h = getattr(call, "_helper", None)
+    if h is None:
+        return [(f, call)]
+    return [(h[0], c) for c in h[1]]
+
+
+def callee_label(call):
+    return norm(call.func)
 
 
 def r4(p, rep):
@@ -100,24 +124,25 @@ def r4(p, rep):
         calls, fn_names, code_names, bound = compiled_function_calls(p, f)
         for call in calls:
             site = f"{f.module.rel}:{call.lineno}"
-            key = f"{f.qualname}:call({call.func.id})"
+            key = f"{f.qualname}:call({callee_label(call)})"
             ok, why = False, "the call of the compiled function is not inside a try"
-            for t in enclosing_tries(call):
-                for h in t.handlers:
-                    catches_all = h.type is None or (isinstance(h.type, ast.Name) and h.type.id in ("Exception", "BaseException"))
-                    if not catches_all:
-                        why = f"handler `except {norm(h.type)}` does not catch every Exception"
-                        continue
-                    if not block_always_raises(h.body):
-                        why = "the catch-all handler does not raise on every path"
-                        continue
-                    kinds = [raised_class(p, f.module, r, f.node) for r in terminal_raises(h.body)]
-                    if all(k == ("errors", "CallOperationError") for k in kinds):
-                        ok, why = True, "inside try/except Exception -> raise CallOperationError"
-                    else:
-                        why = f"catch-all handler raises {kinds}"
-                if ok:
-                    break
+            for g, c in exec_sites(call, f):
+                for t in enclosing_tries(c):
+                    for h in t.handlers:
+                        catches_all = h.type is None or (isinstance(h.type, ast.Name) and h.type.id in ("Exception", "BaseException"))
+                        if not catches_all:
+                            why = f"handler `except {norm(h.type)}` does not catch every Exception"
+                            continue
+                        if not block_always_raises(h.body):
+                            why = "the catch-all handler does not raise on every path"
+                            continue
+                        kinds = [raised_class(p, g.module, r, g.node) for r in terminal_raises(h.body)]
+                        if all(k == ("errors", "CallOperationError") for k in kinds):
+                            ok, why = True, "inside try/except Exception -> raise CallOperationError"
+                        else:
+                            why = f"catch-all handler raises {kinds}"
+                    if ok:
+                        break
             rep.add("C03.R4", key, site, ok, why)
     f = p.func("_split_tensors", "frontend.api")
     binds = [n for n in walk_no_nested(f.node) if isinstance(n, ast.Call) and isinstance(n.func, ast.Attribute) and n.func.attr == "bind"]
